@@ -36,7 +36,7 @@ def fj(sets=None, flavour="O2", weight=1.0, tiers=("quick", "thorough")):
 
 SYNC_SHRINK = {"mode": 0, "span": 1, "nused": 1, "nops": 1, "dtor_pm": 1000, "set_pm": 1000, "churners": 0, "null_pm": 0, "exitmode": 0, "nworkers": 1, "yield_pm": 0, "parent_first": 0, "nthreads": 1, "nacq": 1, "nmutex": 1, "try_pm": 0, "timed_pm": 0,
                "cs_points": 0, "helper_pm": 0, "spinners": 0, "np": 1, "nc": 1, "cap": 1, "k": 1, "nwaiters": 1, "rounds": 1, "n": 1,
-               "racer": -1, "ndeccers": 1, "late": 0, "items": 1, "pairs": 1, "readers": 0, "ncallers": 1, "nctl": 1, "signal_outside": 0, "peekers": 0, "ncycles": 1, "maxw": 1, "race": 0, "ncalls": 1, "nsib": 0, "hold": 0, "various": 0, "with_results": 0, "with_ids": 0, "with_attrs": 0, "nested": 0, "overlap": 0, "ntasks": 1, "len": 0, "step": 1, "form": 0, "grain": 1, "first": 0, "arrwords": 32, "def_stack_extra": 0}
+               "racer": -1, "ndeccers": 1, "late": 0, "items": 1, "pairs": 1, "dispatch": 0, "readers": 0, "ncallers": 1, "nctl": 1, "signal_outside": 0, "peekers": 0, "ncycles": 1, "maxw": 1, "race": 0, "ncalls": 1, "nsib": 0, "hold": 0, "various": 0, "with_results": 0, "with_ids": 0, "with_attrs": 0, "nested": 0, "overlap": 0, "ntasks": 1, "len": 0, "step": 1, "form": 0, "grain": 1, "first": 0, "arrwords": 32, "def_stack_extra": 0}
 
 def sy(cls, sets=None, flavour="O2", weight=1.0, tiers=("quick", "thorough")):
     return {"bin": "mvh", "cls": cls, "sets": sets or {}, "flavour": flavour, "weight": weight, "tiers": tiers, "shrink": SYNC_SHRINK}
